@@ -1,4 +1,134 @@
-import LabreaModel.Eval
+/-
+  C01 — caching is transparent: cached graphs return what uncached evaluation returns.
+
+  FULL STATEMENT (kept visible; it is FALSE of the current tree, see the witnesses below):
+    for every program e, every finite history o₁ … oₖ evaluated on one long-lived state, and every i,
+    the outcome of the i-th evaluation equals the outcome of evaluating e on oᵢ with caching switched off.
+
+  What is proved here, for every environment / expression / options / state / fuel:
+    * the cache discipline of `Cached.evaluate`: a hit returns the stored entry without evaluating the inner
+      expression; a miss evaluates it and stores the value under the fingerprint; a failure stores nothing;
+      a store is found again under the same fingerprint and disturbs no other entry (CacheLemmas);
+    * the fingerprint is a function of the reported keys and their values alone (C03);
+    * with caching switched off the store is never read or written (C16) — so the reference evaluation the
+      property compares with is state-independent;
+    What is missing for the full statement is fingerprint soundness of every inner expression ("equal
+    fingerprints ⇒ equal outcomes"): it fails at the catch positions of `coalesce` and `switch` (known
+    findings F18, F19) and for brace re-substitution (F22) — the negation of the full statement is proved
+    below from concrete histories, and `CacheTransparency.lean` proves the full statement under exactly that
+    hypothesis.
+-/
+import LabreaModel.CacheLemmas
+import LabreaModel.EvalLemmas
 namespace Labrea
-theorem c01_placeholder : True := trivial
+
+variable (env : Env) (run : Run) (x : Expr) (c : Nat) (o : V)
+
+/-- **hit.** When the existence request says yes and the get request answers `v`, `Cached.evaluate` returns `v`
+    and the inner expression is not evaluated. -/
+theorem hit_returns_stored (s s1 s2 : St) (v : V) (he : existsReq env run x c o s = some (.ok true, s1))
+    (hg : getReq env run x c o s1 = some (.ok v, s2)) :
+    cachedOp env run x c .evaluate o s = some (.ok v, s2) :=
+  cached_hit env run x c o s s1 s2 v he hg
+
+/-- **miss.** Otherwise the inner expression is evaluated and its value goes through the set request. -/
+theorem miss_computes_and_stores (s s1 : St) (he : existsReq env run x c o s = some (.ok false, s1)) :
+    cachedOp env run x c .evaluate o s = (do let v ← run .evaluate x o; setReq env run x c o v) s1 :=
+  cached_miss env run x c o s s1 he
+
+/-- a failed evaluation issues no set request: nothing is stored by the failing node -/
+theorem failure_stores_nothing (s s1 s2 : St) (err : Err) (he : existsReq env run x c o s = some (.ok false, s1))
+    (hx : run .evaluate x o s1 = some (.error err, s2)) :
+    cachedOp env run x c .evaluate o s = some (.error err, s2) :=
+  cached_failure_stores_nothing env run x c o s s1 s2 err he hx
+
+/-- what a `get` of the memory backend returns was stored under the node's fingerprint (never fabricated) -/
+theorem get_returns_stored_entry (hk : env.cacheKind c = .memory) (s s' : St) (v : V)
+    (h : backendGet env run x c o s = some (.ok v, s')) :
+    ∃ (fp : V) (s1 : St), fingerprintOf run x o s = some (.ok fp, s1) ∧ entryLookup fp (s1.cacheEntries c) = some v :=
+  memory_get_from_store env run x c o hk s s' v h
+
+/-- the value stored under a fingerprint is the one found again under it -/
+theorem stored_value_is_found (s : St) (fp v : V) :
+    entryLookup fp ((s.setCacheEntries c (entryInsert fp v (s.cacheEntries c))).cacheEntries c) = some v :=
+  store_then_lookup s c fp v
+
+/-- and a store disturbs no entry under another fingerprint -/
+theorem store_frame (s : St) {fp fp' : V} (h : fp' ≠ fp) (v : V) :
+    entryLookup fp' ((s.setCacheEntries c (entryInsert fp v (s.cacheEntries c))).cacheEntries c) =
+      entryLookup fp' (s.cacheEntries c) :=
+  store_keeps_others s c h v
+
+/-- with caching switched off, evaluation never looks at the store: the reference evaluation the property
+    compares with is independent of everything evaluated earlier -/
+theorem uncached_ignores_store {env : Env} (hoff : env.cacheCtxOff = true) (n : Nat) (op : Op) (e : Expr) (o : V)
+    (s : St) (r : Except Err V) (s' : St) (h : ev env n op e o s = some (r, s')) :
+    s'.caches = s.caches ∧ s'.scripts = s.scripts :=
+  ev_ctxOff_sameStore hoff n op e o s r s' h
+
+/-! ### the full statement is false on the current tree: concrete histories (kernel-evaluated) -/
+
+def c01Env (off : Bool) : Env :=
+  { β := fun f a _ => if f = "neg" then (match a with | [.int i] => .ok (.int (-i)) | _ => .error "TypeError")
+                      else if f = "mayfail" then (match a with | [.int 1] => .error "ValueError" | _ => .ok (.str "k"))
+                      else .error "TypeError",
+    binds := fun _ _ => .error "x", ov := fun _ => default, ds := fun _ => default, cacheKind := fun _ => .memory,
+    cacheCtxOff := off }
+
+/-- evaluate a history on one long-lived state; return the outcomes -/
+def history (env : Env) (e : Expr) : List V → St → List (Option (Except Err V))
+  | [], _ => []
+  | o :: os, s =>
+    match ev env 40 .evaluate e o s with
+    | Option.none => [Option.none]
+    | some (r, s') => some r :: history env e os s'
+
+/-- `cached(coalesce(switch('D', {1: Option('Q')}, Option('B') >> neg), Option('B')))` -/
+def f18Cached : Expr :=
+  .cached 10 (.coalesce 9 [ .switch 5 (.option 1 "D" Option.none Option.none) [(.int 1, .option 2 "Q" Option.none Option.none)]
+                  (some (.apply 4 (.option 3 "B" Option.none Option.none) (.value 6 (.fn "neg" [] [])))),
+                .option 7 "B" Option.none Option.none ]) 0
+
+def isOk (r : Option (Except Err V)) (v : V) : Bool := match r with | some (.ok w) => decide (w = v) | _ => false
+
+/-- **known finding F18.** `{B:5}` then `{D:1,B:5}`: the cached graph returns −5, the uncached one 5. -/
+theorem c01_fails_coalesce :
+    (match history (c01Env false) f18Cached [.dict [("B", .int 5)], .dict [("D", .int 1), ("B", .int 5)]] {} with
+      | [a, b] => isOk a (.int (-5)) && isOk b (.int (-5))
+      | _ => false) = true ∧
+    (match history (c01Env true) f18Cached [.dict [("B", .int 5)], .dict [("D", .int 1), ("B", .int 5)]] {} with
+      | [a, b] => isOk a (.int (-5)) && isOk b (.int 5)
+      | _ => false) = true := by
+  constructor <;> decide +kernel
+
+/-- `cached(switch(Option('M','x') >> mayfail, {'k': 1}, 2))` -/
+def f19Cached : Expr :=
+  .cached 8 (.switch 5 (.apply 3 (.option 1 "M" (some (.value 2 (.str "x"))) Option.none) (.value 4 (.fn "mayfail" [] [])))
+    [(.str "k", .value 6 (.int 1))] (some (.value 7 (.int 2)))) 0
+
+/-- **known finding F19.** `{M:1}` (dispatch fails → default 2, stored under the empty fingerprint) then `{}`
+    (dispatch succeeds → 1 uncached, but the cached graph returns the stored 2). -/
+theorem c01_fails_switch_dispatch :
+    (match history (c01Env false) f19Cached [.dict [("M", .int 1)], .dict []] {} with
+      | [a, b] => isOk a (.int 2) && isOk b (.int 2)
+      | _ => false) = true ∧
+    (match history (c01Env true) f19Cached [.dict [("M", .int 1)], .dict []] {} with
+      | [a, b] => isOk a (.int 2) && isOk b (.int 1)
+      | _ => false) = true := by
+  constructor <;> decide +kernel
+
+/-- and a history on which transparency does hold: a dispatch value, a templated reference, a sibling inside a
+    section (the situations the property names) each change the outcome of the cached graph too -/
+def c01Good : Expr :=
+  .cached 9 (.switch 5 (.option 1 "K" Option.none Option.none) [(.str "x", .option 2 "P" Option.none Option.none)]
+    (some (.option 3 "S" Option.none Option.none))) 0
+
+theorem c01_good_history :
+    (history (c01Env false) c01Good
+        [.dict [("K", .str "x"), ("P", .str "{A}"), ("A", .int 1)], .dict [("K", .str "x"), ("P", .str "{A}"), ("A", .int 2)],
+         .dict [("K", .str "y"), ("S", .dict [("X", .int 1)])], .dict [("K", .str "y"), ("S", .dict [("X", .int 1), ("Y", .int 2)])]] {}).map
+      (fun r => match r with | some (.ok v) => some v | _ => Option.none)
+    = [some (.int 1), some (.int 2), some (.dict [("X", .int 1)]), some (.dict [("X", .int 1), ("Y", .int 2)])] := by
+  decide +kernel
+
 end Labrea
